@@ -7,8 +7,6 @@ import (
 	"go/types"
 	"math/big"
 
-	"golang.org/x/tools/go/cfg"
-
 	"lachk/core"
 )
 
@@ -25,30 +23,61 @@ type c27Marker struct {
 // function assigned to them — then the callee's returns are searched). ok=false when some source
 // cannot be classified (parameter, arbitrary expression).
 func c27TrueSources(g *core.FuncInfo, e ast.Expr, at core.Point, pos token.Pos, depth int) (out []c27Marker, ok bool) {
+	leaves, ok := c27Leaves(g, e, at, pos, depth)
+	if !ok {
+		return nil, false
+	}
+	for _, l := range leaves {
+		switch {
+		case l.e == nil: // zero value: false
+		case c26IsTrue(l.f, l.e):
+			out = append(out, c27Marker{l.f, l.pt, l.pos})
+		default:
+			if _, isConst := core.ConstVal(l.f.Info(), l.e); !isConst {
+				return nil, false
+			}
+		}
+	}
+	return out, true
+}
+
+// c27Leaf is one origin of a value: an expression that is neither a variable with visible definitions
+// nor a call of a module function (e == nil stands for the zero value of `var x T`), with the function
+// and point at which it is evaluated.
+type c27Leaf struct {
+	f   *core.FuncInfo
+	e   ast.Expr
+	pt  core.Point
+	pos token.Pos
+}
+
+// c27Leaves follows the expression e (evaluated in g at point at) back to its origins: through local
+// variables (all their definitions in g) and through results of module functions (all their returns).
+// ok=false when an origin is out of sight (parameter, captured variable, compound assignment).
+func c27Leaves(g *core.FuncInfo, e ast.Expr, at core.Point, pos token.Pos, depth int) (out []c27Leaf, ok bool) {
 	if depth > 4 || e == nil {
 		return nil, false
 	}
 	e = ast.Unparen(e)
-	if c26IsTrue(g, e) {
-		return []c27Marker{{g, at, pos}}, true
-	}
 	if _, isConst := core.ConstVal(g.Info(), e); isConst {
-		return nil, true // false
+		return []c27Leaf{{g, e, at, pos}}, true
 	}
 	switch x := e.(type) {
 	case *ast.Ident:
-		v, _ := g.Info().ObjectOf(x).(*types.Var)
-		if v == nil {
-			return nil, false
+		if v, _ := g.Info().ObjectOf(x).(*types.Var); v != nil {
+			return c27LeavesOfVar(g, v, depth)
 		}
-		return c27TrueSourcesOfVar(g, v, depth)
 	case *ast.CallExpr:
-		return c27TrueSourcesOfResult(g, x, 0, depth)
+		if obj, _ := g.P.ResolveCallee(g.Info(), x); obj != nil {
+			if fn, isFn := obj.(*types.Func); isFn && g.P.FuncOf(fn) != nil {
+				return c27LeavesOfResult(g, x, 0, depth)
+			}
+		}
 	}
-	return nil, false
+	return []c27Leaf{{g, e, at, pos}}, true
 }
 
-func c27TrueSourcesOfVar(g *core.FuncInfo, v *types.Var, depth int) (out []c27Marker, ok bool) {
+func c27LeavesOfVar(g *core.FuncInfo, v *types.Var, depth int) (out []c27Leaf, ok bool) {
 	// parameters carry values this analysis does not see
 	for i := 0; ; i++ {
 		pv := g.Param(i)
@@ -73,7 +102,8 @@ func c27TrueSourcesOfVar(g *core.FuncInfo, v *types.Var, depth int) (out []c27Ma
 		switch s := a.Stmt.(type) {
 		case *ast.ValueSpec:
 			if a.RHS == nil {
-				continue // zero value: false
+				out = append(out, c27Leaf{g, nil, a.Pt, a.Stmt.Pos()}) // zero value
+				continue
 			}
 			if len(s.Names) != len(s.Values) {
 				return nil, false
@@ -94,7 +124,12 @@ func c27TrueSourcesOfVar(g *core.FuncInfo, v *types.Var, depth int) (out []c27Ma
 						k = i
 					}
 				}
-				ms, o := c27TrueSourcesOfResult(g, call, k, depth)
+				if obj, _ := g.P.ResolveCallee(g.Info(), call); obj == nil || g.P.FuncOf(c27AsFunc(obj)) == nil {
+					// call of an opaque function: the call itself is the origin
+					out = append(out, c27Leaf{g, a.RHS, a.Pt, a.Stmt.Pos()})
+					continue
+				}
+				ms, o := c27LeavesOfResult(g, call, k, depth)
 				if !o {
 					return nil, false
 				}
@@ -104,7 +139,7 @@ func c27TrueSourcesOfVar(g *core.FuncInfo, v *types.Var, depth int) (out []c27Ma
 		default:
 			return nil, false
 		}
-		ms, o := c27TrueSources(g, a.RHS, a.Pt, a.Stmt.Pos(), depth+1)
+		ms, o := c27Leaves(g, a.RHS, a.Pt, a.Stmt.Pos(), depth+1)
 		if !o {
 			return nil, false
 		}
@@ -113,8 +148,13 @@ func c27TrueSourcesOfVar(g *core.FuncInfo, v *types.Var, depth int) (out []c27Ma
 	return out, ok
 }
 
-// c27TrueSourcesOfResult: where can result k of the called module function become true?
-func c27TrueSourcesOfResult(g *core.FuncInfo, call *ast.CallExpr, k int, depth int) (out []c27Marker, ok bool) {
+func c27AsFunc(obj types.Object) *types.Func {
+	fn, _ := obj.(*types.Func)
+	return fn
+}
+
+// c27LeavesOfResult: the origins of result k of the called module function.
+func c27LeavesOfResult(g *core.FuncInfo, call *ast.CallExpr, k int, depth int) (out []c27Leaf, ok bool) {
 	obj, _ := g.P.ResolveCallee(g.Info(), call)
 	fn, _ := obj.(*types.Func)
 	h := g.P.FuncOf(fn)
@@ -123,17 +163,17 @@ func c27TrueSourcesOfResult(g *core.FuncInfo, call *ast.CallExpr, k int, depth i
 	}
 	for _, rp := range h.ReturnPoints() {
 		r := rp.Node().(*ast.ReturnStmt)
-		var ms []c27Marker
+		var ms []c27Leaf
 		var o bool
 		switch {
 		case k < len(r.Results):
-			ms, o = c27TrueSources(h, r.Results[k], rp, r.Pos(), depth+1)
+			ms, o = c27Leaves(h, r.Results[k], rp, r.Pos(), depth+1)
 		case len(r.Results) == 0:
 			rv := c27ResultVar(h, k)
 			if rv == nil {
 				return nil, false
 			}
-			ms, o = c27TrueSourcesOfVar(h, rv, depth+1)
+			ms, o = c27LeavesOfVar(h, rv, depth+1)
 		}
 		if !o {
 			return nil, false
@@ -436,29 +476,4 @@ func c27Close(c *core.Ctx, closeFn *core.FuncInfo, isRealClose func(*core.CallSi
 	}
 }
 
-// c27HitScenarios splits the executions of openDB by the outcome of the cache lookup
-// `v, ok := opened[name]`: when ok is defined once, every branch on it is taken the same way during one
-// call, so paths are searched only along edges consistent with one outcome (the returned predicates mark
-// the infeasible edges). Without such a variable there is one unrestricted scenario.
-func c27HitScenarios(open *core.FuncInfo, opened string) []func(*cfg.Block, int) bool {
-	hit, reads, consistent := c26CommaOkLookups(open, opened)
-	if hit == nil || !consistent || len(reads) != 1 || len(assignsToVar(open, hit)) != 1 {
-		return []func(*cfg.Block, int) bool{nil}
-	}
-	for _, l := range allLits(open) {
-		if len(assignsToVar(l, hit)) > 0 {
-			return []func(*cfg.Block, int) bool{nil}
-		}
-	}
-	var out []func(*cfg.Block, int) bool
-	for _, t := range []c26Tri{c26True, c26False} {
-		t := t
-		out = append(out, c26Infeasible(open, func(e ast.Expr) c26Tri {
-			if varOf(open, e) == hit {
-				return t
-			}
-			return c26Unknown
-		}))
-	}
-	return out
-}
+// (the split of openDB's executions by the outcome of the cache lookup is c27Effect.scenarios)
